@@ -64,6 +64,15 @@ fn step_kind(s: &mut Mach, ins: &Instr, model: &mut Model, ctx: &mut RunCtx) -> 
             s.exec_eval(ins, model, ctx, |s| vec![Some(s.mref.with_manager_shared(|m| F::var(m, v)))])
         }
         TNot { a, .. } => s.exec_eval(ins, model, ctx, |s| vec![Some(s.reg(*a).unwrap().not())]),
+        TNotEdgeOwned { a, .. } => s.exec_eval(ins, model, ctx, |s| {
+            use oxidd::{Function as _, Manager as _};
+            let f = s.reg(*a).unwrap();
+            vec![Some(f.with_manager_shared(|m, e| {
+                let owned = m.clone_edge(e);
+                let r = F::not_edge_owned(m, owned)?;
+                Ok(F::from_edge(m, r))
+            }))]
+        }),
         TBin { op, a, b, .. } => s.exec_eval(ins, model, ctx, |s| vec![Some(tbin(*op, s.reg(*a).unwrap(), s.reg(*b).unwrap()))]),
         TIte { a, b, c, .. } => {
             s.exec_eval(ins, model, ctx, |s| vec![Some(s.reg(*a).unwrap().ite(s.reg(*b).unwrap(), s.reg(*c).unwrap()))])
